@@ -43,8 +43,10 @@ pub enum Flag {
     None,
     More,
     Oneway,
+    /// both `more` and `oneway` set
+    OnewayMore,
 }
-pub const FLAGS: [Flag; 3] = [Flag::None, Flag::More, Flag::Oneway];
+pub const FLAGS: [Flag; 4] = [Flag::None, Flag::More, Flag::Oneway, Flag::OnewayMore];
 
 #[derive(Debug, Clone, PartialEq, Eq, Hash)]
 pub struct Req {
@@ -53,7 +55,7 @@ pub struct Req {
     pub token: String,
 }
 
-/// The 42-letter alphabet RQ, simplest first (14 kinds x 3 flags; kind-major).
+/// The 56-letter alphabet RQ, simplest first (14 kinds x 4 flag settings).
 pub fn alphabet() -> Vec<(Kind, Flag)> {
     let mut v = vec![];
     for f in FLAGS {
@@ -161,7 +163,7 @@ impl Req {
         format!("{:?}/{:?}", self.kind, self.flag)
     }
     pub fn oneway(&self) -> bool {
-        self.flag == Flag::Oneway
+        self.flag == Flag::Oneway || self.flag == Flag::OnewayMore
     }
     pub fn to_json(&self) -> Value {
         let (method, params): (&str, Option<Value>) = match self.kind {
@@ -200,6 +202,10 @@ impl Req {
             Flag::Oneway => {
                 o.insert("oneway".into(), json!(true));
             }
+            Flag::OnewayMore => {
+                o.insert("oneway".into(), json!(true));
+                o.insert("more".into(), json!(true));
+            }
         }
         if self.kind == Kind::Upgrade {
             o.insert("upgrade".into(), json!(true));
@@ -214,7 +220,7 @@ impl Req {
     /// The replies this request must get when it is answered (ignoring oneway).
     pub fn expect(&self) -> Vec<Pred> {
         use ParamSpec::*;
-        let more = self.flag == Flag::More;
+        let more = self.flag == Flag::More || self.flag == Flag::OnewayMore;
         match self.kind {
             Kind::GetInfo => vec![Pred::ok(HasKeys(&[
                 "vendor", "product", "version", "url", "interfaces",
